@@ -517,6 +517,19 @@ pub fn gen_cases(o: &Opts, part: &str) -> Vec<Case> {
                 v.push(c);
             }
         }
+        "texts" => {
+            // comment / quoting / prime characters at the edges of the text, through all three channels (the channels must agree)
+            for t in [
+                "\"c:\\data\\\" a & b", "\"x\\\"\na & b\n\"y\"\n| c", "x | y \"or z\\\"", "(y <=> x) & y'", "'p | (p & q)", "a | b \"or c\"", "\"not\" a & b", "a' & 'a",
+                " a & b ", "a & b\n", "\ta | b", "a & b\"", "\"a & b", "-a", "--a", "a & b #", "x' | x''",
+            ] {
+                for ch in 0..3u8 {
+                    let mut c = base(t);
+                    c.channel = ch;
+                    v.push(c);
+                }
+            }
+        }
         "shadow" => {
             for (k, f) in stext::shadow_formulas().iter().enumerate() {
                 let mut c = base(f);
@@ -527,6 +540,17 @@ pub fn gen_cases(o: &Opts, part: &str) -> Vec<Case> {
         }
         "names" => {
             // long variable names (20 .. 200 characters) with an ordering file that does not list them last, and the -r / -o round trip
+            // names with combining marks, joiners, connector punctuation, superscripts: one name in the formula, one in the ordering file
+            for nm in ["e\u{301}x", "p\u{200d}q", "p\u{203f}q", "x\u{b2}", "a\u{30a}", "n\u{303}o", "\u{e9}x", "z\u{0660}"] {
+                for f in [format!("{nm} & (b | -c)"), format!("exists b # ({nm} | b) & c")] {
+                    for ord in [format!("{nm}\nc\nb"), format!("c {nm}"), format!("b, {nm}, unused")] {
+                        let mut c = base(&f);
+                        c.ord = Some(ord.into_bytes());
+                        c.roundtrip = true;
+                        v.push(c);
+                    }
+                }
+            }
             for len in [20usize, 23, 24, 25, 26, 32, 64, 200] {
                 let l1 = format!("{}_1", "reactor_cooling_valve_".repeat(10)[..len].to_string());
                 let l2 = format!("{}_2", "m".repeat(len));
